@@ -157,4 +157,23 @@ def rule_replace_by_rename_only(ctx):
     ctx.floor('K12', 'persist sites in store.rs', n, 1)
 
 
-RULES = [rule_replace_by_rename_only, rule_point_file, rule_ta, rule_status]
+def rule_tmp_location(ctx):
+    """Half-written files never appear where readers look: temp files are created in the store's private tmp directory."""
+    n = 0
+    for b in ctx.facts.all_bodies():
+        if not b.file.endswith('src/store.rs') or '::test::' in b.nid:
+            continue
+        for s_ in b.calls(['tempfile::NamedTempFile::new_in', 'tempfile::Builder::tempfile_in', 'tempfile::tempfile_in']):
+            n += 1
+            ctx.bodies.add(b.nid)
+            d = describe(b.origin_of_operand(s_.term['args'][-1] if s_.callee.endswith('new_in') else s_.term['args'][-1]))
+            ok = 'self.path' in d and ('TMP_BASE' in d or 'const("tmp")' in d) and 'parent' not in d
+            ctx.check(ok, 'K12', '%s:tmp-file-in-private-tmp-dir' % b.nid,
+                      'the temporary file is created in <store>/tmp (%s)' % d[:80],
+                      '%s creates the temporary file in `%s`, not in the store\'s private tmp directory: a kill during the update '
+                      'leaves a half-written file inside the tree that cleanup, dump and the next run read as a stored publication '
+                      'point' % (b.nid, d[:120]), loc=s_.loc())
+    ctx.floor('K12', 'temporary file creations in store.rs', n, 1)
+
+
+RULES = [rule_tmp_location, rule_replace_by_rename_only, rule_point_file, rule_ta, rule_status]
